@@ -360,7 +360,7 @@ def sampled_case(draw):
     return case
 
 
-PARAMS = {"quick": 300, "thorough": 12000}
+PARAMS = {"quick": 700, "thorough": 15000}
 
 
 def shard(ctx):
